@@ -322,7 +322,12 @@ func runC02(c *c02Case) (v *vcommon.Violation, nontrivial, inconclusive bool) {
 				k.asserted = len(live) >= c.R
 				k.everSet = true
 			} else {
-				if stopsDone == 0 || !strings.HasPrefix(r.err, "other:") {
+				if strings.HasPrefix(r.err, "other:") && stopsDone == 0 {
+					// a transport error before any stop: the fast failure detector flapped under load
+					// (a member was declared dead and its client closed); membership was not stable
+					return nil, nontrivial, true
+				}
+				if !strings.HasPrefix(r.err, "other:") {
 					return bad("write-fails", "%s(%s) through %s failed in a stable cluster of %d members: %s", op.Op, key, m.name, len(live), r.err), nontrivial, false
 				}
 				k.admissible[val] = true
